@@ -99,6 +99,78 @@ Definition boxed_names (body : list stmt) : list string := flat_map (nm_stmt fal
 Definition mentioned (ps : list param) (body : list stmt) : list string :=
   (flat_map (nm_stmt true) body)%list.
 
+(* variables bound by the for clauses of one comprehension *)
+Definition comp_vars (cls : list clause) : list string :=
+  add_all (flat_map (fun c => match c with CFor t _ _ => target_names t | CIf _ => [] end) cls) [].
+
+Definition lambda_def (ps : list param) (body : expr) (pp : pos) : fundef :=
+  {| fd_name := "lambda"; fd_params := ps; fd_body := [SReturn (Some body)]; fd_pos := pp |}.
+
+(* find_def: the definition with a given id together with the names bound by
+   the blocks that lexically enclose it (enclosing functions, comprehensions and
+   the file block) -- the only variables a closure over it may capture *)
+Fixpoint fd_expr (fid : nat) (encl : list string) (e : expr) {struct e} : option (fundef * list string) :=
+  let dflts ps := first_some (fun q => match q with PDefault _ d => fd_expr fid encl d | _ => None end) ps in
+  match e with
+  | EName _ _ | EInt _ | EStr _ | EUnsup _ => None
+  | EParen e | EUnary _ _ e | EDot e _ _ => fd_expr fid encl e
+  | EBinary _ _ x y | EAnd x y | EOr x y | EIndex x y _ =>
+      match fd_expr fid encl x with Some d => Some d | None => fd_expr fid encl y end
+  | ECond c t f =>
+      match fd_expr fid encl c with Some d => Some d | None =>
+      match fd_expr fid encl t with Some d => Some d | None => fd_expr fid encl f end end
+  | ETuple es | EList es => first_some (fd_expr fid encl) es
+  | EDict kvs => first_some (fun kv => match fd_expr fid encl (fst (fst kv)) with Some d => Some d
+                                       | None => fd_expr fid encl (snd (fst kv)) end) kvs
+  | ECall f args _ =>
+      match fd_expr fid encl f with Some d => Some d | None =>
+        first_some (fun a => match a with APos e | ANamed _ e | AStar e | AStarStar e => fd_expr fid encl e end) args end
+  | ELambda id ps body pp =>
+      if Nat.eqb id fid then Some (lambda_def ps body pp, encl)
+      else match dflts ps with
+           | Some d => Some d
+           | None => fd_expr fid (encl ++ param_names ps)%list body end
+  | EComp _ b bv _ cls =>
+      let encl' := (encl ++ comp_vars cls)%list in
+      match fd_expr fid encl' b with Some d => Some d | None =>
+      match fd_expr fid encl' bv with Some d => Some d | None =>
+        first_some (fun c => match c with
+                             | CFor t e _ => match fd_target fid encl' t with Some d => Some d | None => fd_expr fid encl' e end
+                             | CIf c => fd_expr fid encl' c end) cls end end
+  end
+with fd_target (fid : nat) (encl : list string) (t : target) {struct t} : option (fundef * list string) :=
+  match t with
+  | TName _ _ => None
+  | TIndex x y _ => match fd_expr fid encl x with Some d => Some d | None => fd_expr fid encl y end
+  | TDot x _ _ => fd_expr fid encl x
+  | TSeq ts => first_some (fd_target fid encl) ts
+  end.
+
+Fixpoint fd_stmt (fid : nat) (encl : list string) (s : stmt) {struct s} : option (fundef * list string) :=
+  match s with
+  | SExpr e => fd_expr fid encl e
+  | SAssign t e _ | SAug _ t e _ =>
+      match fd_expr fid encl e with Some d => Some d | None => fd_target fid encl t end
+  | SIf c tb fb =>
+      match fd_expr fid encl c with Some d => Some d | None =>
+      match first_some (fd_stmt fid encl) tb with Some d => Some d | None => first_some (fd_stmt fid encl) fb end end
+  | SWhile c b => match fd_expr fid encl c with Some d => Some d | None => first_some (fd_stmt fid encl) b end
+  | SFor t e b _ =>
+      match fd_expr fid encl e with Some d => Some d | None =>
+      match fd_target fid encl t with Some d => Some d | None => first_some (fd_stmt fid encl) b end end
+  | SBreak | SContinue | SPass | SLoad _ _ _ | SUnsup _ | SReturn None => None
+  | SReturn (Some e) => fd_expr fid encl e
+  | SDef id name ps body pp =>
+      let fd := {| fd_name := name; fd_params := ps; fd_body := body; fd_pos := pp |} in
+      if Nat.eqb id fid then Some (fd, encl)
+      else match first_some (fun q => match q with PDefault _ d => fd_expr fid encl d | _ => None end) ps with
+           | Some d => Some d
+           | None => first_some (fd_stmt fid (encl ++ locals_of fd)%list) body end
+  end.
+
+Definition find_def (p : program) (fid : nat) : option (fundef * list string) :=
+  first_some (fd_stmt fid (file_names p)) (p_body p).
+
 (* ---------------------------------------------------------------- results *)
 
 Inductive res (A : Type) :=
@@ -129,7 +201,7 @@ Section Ref.
   Variable p : program.
 
   Definition fname (fid : nat) : string :=
-    match find_fun p fid with Some fd => fd_name fd | None => "?" end.
+    match find_def p fid with Some d => fd_name (fst d) | None => "?" end.
 
   Definition gidx (x : string) : option nat := index_of x (global_names p).
 
@@ -173,9 +245,6 @@ Section Ref.
   (* the cells of the enclosing environment that a nested function mentions *)
   Definition capture (ρ : env) (names : list string) : list (string * nat) :=
     flat_map (fun x => match assoc x ρ with Some (Boxed c) => [(x, c)] | _ => [] end) (add_all names []).
-
-  Definition comp_vars (cls : list clause) : list string :=
-    add_all (flat_map (fun c => match c with CFor t _ _ => target_names t | CIf _ => [] end) cls) [].
 
   Definition apply_aug (o : binop) (x y : value) (w : world) : pres (value * world) :=
     match o with
@@ -226,8 +295,12 @@ Section Ref.
                     | Some v => lift (elements v (rw s2)) ps (rw s2) end);
         call n stk vf (pos_ ++ pos2)%list (named ++ kw2)%list ps s2
     | ELambda fid ps body _ =>
-        do (ds, s1) <- eval_defaults n stk ρ ps false s;
-        Ok (VFun fid ds (capture ρ (mentioned ps [SReturn (Some body)])), s1)
+        match find_def p fid with
+        | None => Unsup "internal:function-id"
+        | Some _ =>
+            do (ds, s1) <- eval_defaults n stk ρ ps false s;
+            Ok (VFun fid ds (capture ρ (mentioned ps [SReturn (Some body)])), s1)
+        end
     | EComp curly body bodyv cp cls =>
         match cls with
         | CFor t e ps :: rest =>
@@ -353,13 +426,15 @@ Section Ref.
     | VBuiltin name => do (r, w) <- lift (call_builtin fname name None args kwargs (rw s)) ps (rw s); Ok (r, with_w s w)
     | VMethod name recv => do (r, w) <- lift (call_builtin fname name (Some recv) args kwargs (rw s)) ps (rw s); Ok (r, with_w s w)
     | VFun fid defaults free =>
-        match find_fun p fid with
+        match find_def p fid with
         | None => Unsup "internal:function-id"
-        | Some fd =>
+        | Some (fd, encl) =>
             if negb (o_recursion (p_opts p)) && existsb (Nat.eqb fid) stk then Fail ps true (rw s) else
             do (params, w1) <- lift_call (bind_args (fd_params fd) defaults args kwargs (rw s)) ps (rw s);
             let '(ρl, w2) := new_vars (locals_of fd) (map Some params) (boxed_names (fd_body fd)) w1 in
-            let ρ := (ρl ++ map (fun xc => (fst xc, Boxed (snd xc))) free)%list in
+            (* a closure can only hold variables of lexically enclosing blocks *)
+            let free' := filter (fun xc => str_in (fst xc) encl) free in
+            let ρ := (ρl ++ map (fun xc => (fst xc, Boxed (snd xc))) free')%list in
             do (o, s1) <- exec_block n (fid :: stk) ρ (fd_body fd) (with_w s w2);
             let '(out, _) := o in
             match out with
@@ -418,9 +493,13 @@ Section Ref.
     | SReturn None => Ok (OReturn VNone, ρ, s)
     | SReturn (Some e) => do (v, s1) <- eval n stk ρ e s; Ok (OReturn v, ρ, s1)
     | SDef fid name ps body _ =>
-        do (ds, s1) <- eval_defaults n stk ρ ps false s;
-        do (ρ1, s2) <- set_var ρ name (VFun fid ds (capture ρ (mentioned ps body))) s1;
-        Ok (ONormal, ρ1, s2)
+        match find_def p fid with
+        | None => Unsup "internal:function-id"
+        | Some _ =>
+            do (ds, s1) <- eval_defaults n stk ρ ps false s;
+            do (ρ1, s2) <- set_var ρ name (VFun fid ds (capture ρ (mentioned ps body))) s1;
+            Ok (ONormal, ρ1, s2)
+        end
     | SLoad m names ps =>
         match load_module m with
         | None => Fail ps false (rw s)
